@@ -42,13 +42,13 @@ struct Even {
 enum Code : std::uint32_t {
     EMPLACE_BACK, PUSH_RREF, PUSH_CREF, POP_BACK, INSERT_RREF, INSERT_CREF, INSERT_N, INSERT_RANGE, MOVE_INSERT, EMPLACE_POS, ERASE_POS, ERASE_RANGE,
     RESIZE, RESIZE_VAL, ASSIGN_N, ASSIGN_RANGE, CLEAR, WRITE, SWAP_MEMBER, SWAP_FREE, SELF_SWAP_MEMBER, SELF_SWAP_FREE, COPY_CTOR, COPY_ASSIGN,
-    SELF_COPY_ASSIGN, MOVE_CTOR, MOVE_ASSIGN, SELF_MOVE_ASSIGN, FREE_ERASE, FREE_ERASE_IF, CTOR_N, CTOR_N_VAL, CTOR_RANGE, CTOR_CARRAY,
+    SELF_COPY_ASSIGN, MOVE_CTOR, MOVE_ASSIGN, SELF_MOVE_ASSIGN, FREE_ERASE, FREE_ERASE_IF, CTOR_N, CTOR_N_VAL, CTOR_RANGE, CTOR_CARRAY, FILL,
     NCODES
 };
 char const* const code_names[] = {"emplace_back", "push_back(&&)", "push_back(const&)", "pop_back", "insert(pos,&&)", "insert(pos,const&)", "insert(pos,n,x)", "insert(pos,first,last)",
     "move_insert(pos,first,last)", "emplace(pos,x)", "erase(pos)", "erase(first,last)", "resize(n)", "resize(n,x)", "assign(n,x)", "assign(first,last)", "clear", "v[i]=T", "swap(member)",
     "swap(free)", "self swap(member)", "self swap(free)", "copy-ctor", "copy-assign", "self copy-assign", "move-ctor+refill source", "move-assign+refill source", "self move-assign",
-    "erase(c,v)", "erase_if(c,even)", "ctor(n)", "ctor(n,x)", "ctor(first,last)", "ctor(T(&&)[k])"};
+    "erase(c,v)", "erase_if(c,even)", "ctor(n)", "ctor(n,x)", "ctor(first,last)", "ctor(T(&&)[k])", "fill to capacity"};
 static_assert(sizeof(code_names) / sizeof(code_names[0]) == NCODES);
 
 constexpr auto move_only_remap(std::uint32_t code) -> std::uint32_t
@@ -126,6 +126,7 @@ struct SV {
     {
         lt::reset();
         Hist h;
+        bool filled = false;
         {
             V a;
             V b;
@@ -380,6 +381,19 @@ struct SV {
                     }
                     break;
                 }
+                case FILL: {
+                    // exactly N - size() pushes, counted here (not by re-reading size(), which is what a too narrow size member
+                    // would wrap): every element constructed now must be readable afterwards and destroyed with the owner
+                    for (std::size_t i = sz; i < N; ++i) {
+                        if ((op.b & 1U) != 0) {
+                            x.emplace_back(val + static_cast<int>(i % 5));
+                        } else {
+                            x.push_back(T(val + static_cast<int>(i % 5)));
+                        }
+                    }
+                    filled = true;
+                    break;
+                }
                 case CTOR_CARRAY: {
                     if constexpr (N >= 3) {
                         T src[3]{T(sv[0]), T(sv[1]), T(sv[2])};
@@ -407,15 +421,16 @@ struct SV {
             }
         }
         if (h.err.empty()) { h.err = lt::check_empty(); }
+        if (stats > 1 && N >= 255) { vf::label("static_vector.N>=255 filled to capacity", filled); }
         h.labels("static_vector", stats, k, MA ? (N >= 3 ? "mvsf" : "vsf") : (N >= 3 ? "mv" : "v")); // a middle position needs 3 elements
         return h.err;
     }
 };
 
 // ================================================================== inplace_vector
-enum ICode : std::uint32_t { I_TRY_EMPLACE, I_TRY_PUSH_RREF, I_TRY_PUSH_CREF, I_UNCHECKED_EMPLACE, I_UNCHECKED_PUSH_RREF, I_UNCHECKED_PUSH_CREF, I_POP, I_CLEAR, I_WRITE, I_COPY_CTOR, I_MOVE_CTOR, I_MOVE_CTOR_KEEP, I_NCODES };
+enum ICode : std::uint32_t { I_TRY_EMPLACE, I_TRY_PUSH_RREF, I_TRY_PUSH_CREF, I_UNCHECKED_EMPLACE, I_UNCHECKED_PUSH_RREF, I_UNCHECKED_PUSH_CREF, I_POP, I_CLEAR, I_WRITE, I_COPY_CTOR, I_MOVE_CTOR, I_MOVE_CTOR_KEEP, I_FILL, I_NCODES };
 char const* const icode_names[] = {"try_emplace_back", "try_push_back(&&)", "try_push_back(const&)", "unchecked_emplace_back", "unchecked_push_back(&&)", "unchecked_push_back(const&)", "pop_back", "clear",
-    "v[i]=T", "copy-ctor", "move-ctor+refill source", "move-ctor, moved-to object replaces B"};
+    "v[i]=T", "copy-ctor", "move-ctor+refill source", "move-ctor, moved-to object replaces B", "fill to capacity"};
 static_assert(sizeof(icode_names) / sizeof(icode_names[0]) == I_NCODES);
 
 template <typename T, std::size_t N>
@@ -427,6 +442,7 @@ struct IV {
     {
         lt::reset();
         Hist h;
+        bool filled = false;
         {
             V a{};
             V b{};
@@ -512,6 +528,20 @@ struct IV {
                     }
                     break;
                 }
+                case I_FILL: {
+                    // exactly N - size() pushes, counted here (see static_vector FILL)
+                    if constexpr (N > 0) {
+                        for (std::size_t i = sz; i < N; ++i) {
+                            if ((op.b & 1U) != 0) {
+                                (void)x.unchecked_emplace_back(val + static_cast<int>(i % 5));
+                            } else {
+                                (void)x.try_push_back(T(val + static_cast<int>(i % 5)));
+                            }
+                        }
+                    }
+                    filled = true;
+                    break;
+                }
                 case I_MOVE_CTOR_KEEP: {
                     // not assignable: the only way to hand elements from one object to another is a chain of move constructions
                     if constexpr (N > 0) {
@@ -539,6 +569,7 @@ struct IV {
             }
         }
         if (h.err.empty()) { h.err = lt::check_empty(); }
+        if (stats > 1 && N >= 255) { vf::label("inplace_vector.N>=255 filled to capacity", filled); }
         h.labels("inplace_vector", stats, k, "v");
         return h.err;
     }
@@ -706,7 +737,7 @@ using TCO = lt::TCO;
 #define IVC(T, N) Config{"inplace_vector<" #T "," #N ">", &IV<T, N>::run, I_NCODES, icode_names, (N) <= 2}
 #define STC(T, N) Config{"stack<" #T ",static_vector<" #T "," #N ">>", &STK<T, N>::run, S_NCODES, scode_names, (N) <= 2}
 
-// The TU is built twice (registry flags -DC03_PART=1 / =2) so that the two halves compile in parallel.
+// The TU is built three times (registry flags -DC03_PART=1 / =2 / =3) so that the parts compile in parallel.
 #ifndef C03_PART
 #define C03_PART 0
 #endif
@@ -715,6 +746,11 @@ void init_configs()
     configs() = {
 #if C03_PART == 0 || C03_PART == 1
         SVC(TMO, 0), SVC(TMO, 1), SVC(TMO, 2), SVC(TMO, 4), SVC(TMO, 16), SVC(TCO, 0), SVC(TCO, 1), SVC(TCO, 2), SVC(TCO, 4), SVC(TCO, 16), SVC(TCM, 2), SVC(TCM, 5),
+#endif
+#if C03_PART == 0 || C03_PART == 3
+        // the smallest_size_t boundary: capacity 255 / 256 with every element kind; the FILL op makes the histories reach full()
+        SVC(TMO, 255), SVC(TMO, 256), SVC(TCO, 255), SVC(TCO, 256), SVC(TCM, 255), SVC(TCM, 256),
+        IVC(TMO, 255), IVC(TMO, 256), IVC(TCO, 255), IVC(TCO, 256), IVC(TCM, 255), IVC(TCM, 256),
 #endif
 #if C03_PART == 0 || C03_PART == 2
         IVC(TMO, 0), IVC(TMO, 1), IVC(TMO, 2), IVC(TMO, 4), IVC(TMO, 16), IVC(TCO, 0), IVC(TCO, 1), IVC(TCO, 2), IVC(TCO, 4), IVC(TCO, 16), IVC(TCM, 3),
@@ -730,7 +766,11 @@ void vf_run(vf::Ctx& c)
     init_configs();
     // fill prefix: three elements into A, two into B (re-mapped to what the capacity allows)
     c03::run_pairs(c, {RawOp{0, 0, 0, 2}, RawOp{0, 0, 0, 4}, RawOp{0, 0, 0, 6}, RawOp{0, 0, 0, 3}, RawOp{0, 0, 0, 5}});
+#if C03_PART == 3
+    c03::run_histories(c, 500, 4000, 30); // capacity 255/256: every op reads up to 512 elements
+#else
     c03::run_histories(c, 2000, 16000, 30);
+#endif
 }
 
 std::string vf_replay(std::string const&, std::string const& cs)
